@@ -597,6 +597,11 @@ class BaseParser:
                 default = field.get_default(options, defer=False)
                 if not unprovided(default):
                     result[name] = default
+                elif field.is_required(options=options):
+                    # the value is not taken as input and there is no default: a required field is absent
+                    # (as the data-first strategy reports it)
+                    unprovided_fields.add(name)
+                    context.handle_error(exc.AbsenceError(item=name))
                 continue
 
             if not options.ignore_alias_conflicts and not unprovided(conflict):
